@@ -44,6 +44,7 @@ def run(seed):
 
 seeds = sorted(glob.glob(os.path.join(ROOT, "seeded", "*")))
 seeds = [s for s in seeds if os.path.exists(os.path.join(s, "meta.json")) and (not only or any(o in s for o in only))]
+seeds = [s for s in seeds if not json.load(open(os.path.join(s, "meta.json"))).get("obsolete")]
 bad = 0
 with ThreadPoolExecutor(max_workers=4) as ex:
     for name, err, hits in ex.map(run, seeds):
